@@ -78,6 +78,21 @@ def main(argv):
                               'no undocumented exception observed on this input',
                               {'correspondence': 'legA:json_ast.process', 'document': d, 'impl': str(io)[:1500], 'model': str(mo)[:1500]},
                               failing_input=False)
+    # the same documents through the other entry point, load_file(path).process(): same outcome class as through the constructor
+    pick = list(range(0, len(docs), max(1, len(docs) // (400 if tier == 'quick' else 6000))))
+    impl_f = run_impl('json_worker', {'cases': [{'op': 'process', 'doc': docs[k][1], 'via': 'file', 'verbose': k % 2 == 0} for k in pick]}, timeout=1800)['results']
+    n_file = 0
+    for k, r in zip(pick, impl_f):
+        io, io0 = impl_outcome(r), impl_outcome(impl[k])
+        rep.case({'via': 'file', 'doc': docs[k][1]}, shape='via load_file/' + io[0])
+        if io[0] == 'internal' and n_file < 3:
+            n_file += 1
+            rep.violation(f'load_file(path).process() raised an undocumented exception {io[1]} on a malformed document ({docs[k][0]})',
+                          {'document': docs[k][1], 'exception': io[1], 'how': 'DznJsonAst().load_file(<file holding the document>).process()'})
+        elif io[0] != 'internal' and not agree(io, io0) and n_file < 3:
+            n_file += 1
+            rep.violation(f'load_file(path).process() and DznJsonAst(contents).process() disagree on the same document ({docs[k][0]}): {io[0]} vs {io0[0]}',
+                          {'document': docs[k][1]})
     # out-events with a non-void reply or an out parameter are always refused
     evs = out_event_docs(rng, 300 if tier == 'quick' else 5000)
     impl_e = run_impl('json_worker', {'cases': [{'op': 'parse_event', 'doc': d} for _, d in evs]})['results']
